@@ -51,7 +51,7 @@ struct Rng {
 };
 
 // ------------------------------------------------------------ schedule ----
-enum Policy { POL_UNIFORM = 0, POL_BURST, POL_PCT, POL_RR, POL_REPLAY };
+enum Policy { POL_UNIFORM = 0, POL_BURST, POL_PCT, POL_RR, POL_REPLAY, POL_RELEASE };
 
 struct Sched {
   uint64_t seed = 1;
